@@ -26,7 +26,7 @@ CHECKS = {
              'dumps is replayed into integrate_time_series_slice, annual_electricity_pumping_power and remaining_reservoir_heat_content; '
              'a snapshot taken right after the surface plant Calculate of every run (all 8 plant classes, all cogeneration variants, '
              '1..12 steps per year, district heating daily split) is validated step by step and year by year by TraceEnergy.tla in exact '
-             'rational arithmetic.',
+             'rational arithmetic. The flows are projected again at the end of Model.Calculate(): downstream economics modules (add-ons, S-DAC-GT) may add to the energy sold but must leave extracted, pumped and remaining heat as the plant left them (C02_reported_unchanged).',
         note='Trusted: TLC, BigInteger rationals, float projection. The last-year (short slice / single-sample) convention is a model-fit clause '
              '(drift warning, not violation). Water properties and plant efficiency correlations are not recomputed. SUTRA/AGS not covered.',
         tech='TLA+ spec (Energy.tla) model-checked with TLC; TLC-generated vectors replayed into code; TLC trace validation (TraceEnergy.tla)'),
@@ -36,7 +36,7 @@ CHECKS = {
              'every override-flag subset x plant class x incentive switch (closed forms of CostRollupDef.tla as invariants); every '
              'configuration TLC visits is turned into a real input and run (quick: 260 sampled), Drilling.tla vectors are replayed '
              'into calculate_total_drilling_lengths_m, and the economics snapshot of every run (grid, all 17 well-cost correlations, '
-             'examples incl. SBT) is validated stage by stage by TraceCostRollup.tla in exact rational arithmetic.',
+             'examples incl. SBT) is validated stage by stage by TraceCostRollup.tla in exact rational arithmetic. End-use equipment costs the user writes (chiller, heat pump, district-heating network and its O&M), including 0 and figures equal to the declared default, are the figures used (C03_given_equipment).',
         note='Trusted: TLC, BigInteger rationals, float projection. Component correlations themselves are not recomputed. SUTRA/CLGS not covered.',
         tech='TLA+ spec (CostRollup.tla) model-checked with TLC; TLC-enumerated configurations run through the code; TLC trace validation'),
     'C04': dict(
@@ -85,7 +85,7 @@ CHECKS = {
              'TLC dumps are replayed through real caching and non-caching GeophiresXClient objects over 9 input families incl. failing '
              'requests and file rewrites, and the recorded histories validated by TraceClient.tla (restore, freshness against a stand-alone '
              'reference run, purity of the outcome); contamination sequences in one process and CLI sub-processes under 3 hash seeds x 2 '
-             'start directories are validated by TraceHistory.tla (same input => same result).',
+             'start directories are validated by TraceHistory.tla (same input => same result). Pairs of parameters whose reading interferes (one writes the other, or both write a third: discovered through the real reader) are given conflicting values and run under 4-7 hash seeds.',
         note='Histories for replay are sampled by seed from the exhaustive TLC dump (quick 110, thorough 1600). Results compared as report '
              'text without date/time lines.',
         tech='TLA+ spec (Client.tla) model-checked with TLC; TLC-generated histories replayed into the real client; TLC trace validation'),
@@ -111,7 +111,7 @@ CHECKS = {
              '(lifetimes 2..99, up to 14 construction years, overflowing widths, carbon / add-on / S-DAC-GT blocks, examples) are parsed by the '
              'real client in sub-processes under three hash seeds and compared with an independent lexical tokenisation by TraceParser.tla: '
              'every field against the exact-label line of its own section, unambiguity of the lookup, every cell and the row count of every '
-             'profile table, header arity, CSV export, JSON side file (rounded to the displayed precision), identical structure across seeds.',
+             'profile table, header arity, CSV export, JSON side file (rounded to the displayed precision), identical structure across seeds. Every result object is re-serialised after all reports of the process were parsed; JSON entries (scalars and series) are compared with the outputs as computed.',
         note='Independent tokeniser (harness/report.py) is part of the trusted base. Unit-less "Number..." fields carry the client\'s unit "count".',
         tech='TLA+ string-level parser spec (Parser.tla, collision matrix) checked with TLC; TLC trace validation of real reports vs the real client (TraceParser.tla)'),
     'C11': dict(
@@ -140,7 +140,7 @@ CHECKS = {
              'release) and TLC explores every assignment and interleaving of 3 workers x 4 tasks with a failing task (C13_distinct, NoReplica, '
              'C13_rows, termination; the pinned no-reseed design must violate NoReplica); real MC runs of both codes with all five '
              'distributions and pool sizes 1..16, recorded through guarded worker hooks, are validated by TraceMC.tla: per-process event '
-             'order, support, pairwise distinct continuous vectors, all iterations started, file rows = rows written = simulated-ok iterations.',
+             'order, support, pairwise distinct continuous vectors, all iterations started, file rows = rows written = simulated-ok iterations. All three programs of the driver (GEOPHIRES, HIP-RA-X, legacy HIP-RA), distributions of extreme scale and width, result files named by a relative settings line.',
         note='Schedules of the real runs are whatever the OS produces (7 runs quick); interleavings are exhaustive only on the model. Distinct '
              'stream positions are assumed to give distinct doubles. RNG fingerprints / lock overlap are fit_ observations.',
         tech='TLA+ concurrent spec (MonteCarlo.tla) model-checked with TLC incl. liveness; TLC trace validation of hooked real runs (TraceMC.tla)'),
@@ -150,7 +150,7 @@ CHECKS = {
              'shows a dropped row). Real MC runs incl. high-contention HIP-RA-X (120 ms-scale iterations on 16 workers) and 40 % failing '
              'iterations: every row is re-simulated from its recorded samples through the real simulator; TraceMC.tla checks column order, '
              'own-sample, replay token equality, rows whole and complete, and recomputes min/max/median/mean/std exactly (rationals) against '
-             'the JSON summary and the text block.',
+             'the JSON summary and the text block. Sampled names that are prefixes of other base parameters; a file with rows must be summarised for every requested output (C14_stats_present).',
         note='Row atomicity relies on single-write appends (observed, not proved; pylocker is third party). std compared via exact population variance.',
         tech='TLA+ concurrent spec (MonteCarlo.tla) model-checked with TLC; TLC trace validation with exact-rational statistics and row re-simulation'),
     'C15': dict(
@@ -197,7 +197,7 @@ CHECKS = {
              'the real Model() + read_parameters (same classes, same failing combinations), yielding the reachable module classes; the '
              'generated schemas, the committed files and the live ParameterDicts are then validated by TraceSchema.tla: schema names = union '
              'of accepted names (offenders named), type/default/unit/bounds of identically defined parameters = live declarations (exact), '
-             'committed = generated, every result-schema field extractable by the real client (synthetic one-field reports). Also HIP-RA-X.',
+             'committed = generated, every result-schema field extractable by the real client (synthetic one-field reports). Also HIP-RA-X. Schemas are generated cold and after simulations ran in the same process; the schema minimum / maximum written with the schema unit are read through the real reader and must be accepted and stored, the next doubles outside refused (C19_enforced).',
         note='Finite and complete in both tiers. Known findings: Maximum Drawdown maximum, two enum defaults serialised as empty strings.',
         tech='TLA+ spec (Pipeline.tla) model-checked with TLC and confirmed configuration by configuration on the code; TLC set/attribute validation (TraceSchema.tla)'),
     'C20': dict(
@@ -206,7 +206,7 @@ CHECKS = {
              'resolution) is model-checked and its reachable matrix dumped; every cell is executed for real (python -m geophires_x '
              'sub-processes with the guard off, in-process client, the run embedded in a Monte Carlo work package, direct pipeline) and '
              'TraceEntry.tla checks same report, same JSON, files created exactly where OutPath says, non-zero exit / exception and no '
-             'report on failure.',
+             'report on failure. In-process entry points are also run "warm" (after heterogeneous requests in the same process) on inputs that lean on defaults, and on inputs that spell out every in-range default.',
         note='The matrix is exhaustive; concrete inputs are seeded (quick: 2 families + example1). MC-embedded runs compared through extracted tokens.',
         tech='TLA+ spec (Entry.tla) model-checked with TLC, matrix executed against the real entry points, TLC trace validation (TraceEntry.tla)'),
 }
